@@ -205,7 +205,7 @@ func genCorruptArchive(t *rapid.T) BytesCase {
 	isDeb := rapid.Bool().Draw(t, "deb")
 	var ms []ArMember
 	if isDeb {
-		m := genDebModel(t)
+		m := genSmallDebModel(t)
 		m.CtlCodec = rapid.SampledFrom([]string{"", "gz"}).Draw(t, "cc")
 		m.DataCodec = rapid.SampledFrom([]string{"", "gz"}).Draw(t, "dc")
 		_, members, err := buildDeb(m)
@@ -303,7 +303,7 @@ func TestC15_TruncateExh(t *testing.T) {
 	sink := &Spec[BytesCase]{Check: func(c BytesCase, r *Recorder) error { bases = append(bases, c); return nil }}
 	rapidCollect(t, sink, func(t *rapid.T) BytesCase {
 		if rapid.Bool().Draw(t, "deb") {
-			m := genDebModel(t)
+			m := genSmallDebModel(t)
 			m.CtlCodec, m.DataCodec = rapid.SampledFrom([]string{"", "gz"}).Draw(t, "cc"), rapid.SampledFrom([]string{"", "gz"}).Draw(t, "dc")
 			m.DataFiles = m.DataFiles[:min(len(m.DataFiles), 2)]
 			raw, _, err := buildDeb(m)
@@ -388,4 +388,15 @@ func FuzzC15_Deb(f *testing.F) {
 			t.Fatalf("C15 violated: %v", err)
 		}
 	})
+}
+
+// genSmallDebModel: corruption sweeps multiply every base artefact by thousands of
+// variants, so the oversized-control class of the C14 generator is left out here.
+func genSmallDebModel(t *rapid.T) DebModel {
+	for {
+		m := genDebModel(t)
+		if len(m.ControlText) < 6000 {
+			return m
+		}
+	}
 }
